@@ -274,7 +274,8 @@ fn push_fdt(data: &mut Vec<u8>, version: u8, fdt_id: u32) {
     |   HET = 192   |   V   |          FDT Instance ID              |
     +-+-+-+-+-+-+-+-+-+-+-+-+-+-+-+-+-+-+-+-+-+-+-+-+-+-+-+-+-+-+-+-+
      */
-    let ext = (lct::Ext::Fdt as u32) << 24 | (version as u32) << 20 | fdt_id;
+    // The FDT Instance ID field is 20 bits wide: keep the HET and version bits intact
+    let ext = (lct::Ext::Fdt as u32) << 24 | (version as u32) << 20 | (fdt_id & 0xFFFFF);
     data.extend(ext.to_be_bytes());
     lct::inc_hdr_len(data, 1);
 }
